@@ -1,6 +1,7 @@
 (* C04 - Repeating a successful sync does nothing.  Statements only. *)
 From RJ Require Import Base.Prelude Base.OrderedPlan Model.Settings Model.Core Model.Fs Model.Paths Model.Sync
-  Spec.PlanSpec Spec.Mirror Proofs.ExecProofs Proofs.PathsProofs Proofs.MirrorProofs Proofs.IdemProofs Proofs.IdemMain.
+  Spec.PlanSpec Spec.Mirror Proofs.ExecProofs Proofs.PathsProofs Proofs.MirrorProofs Proofs.IdemProofs Proofs.IdemMain Proofs.InstanceProofs Proofs.RepairMain.
+From RJ Require Import Model.SyncTop.
 
 (* If a sync returns Ok without skips (and it was no dry run and nothing went through a link), then
    running the same sync again on what it left behind - with any answers, interleaving, listing order
@@ -21,6 +22,18 @@ Theorem C04_idempotent : forall now_z incl normalize chunker,
   r_ok r2 = true /\ r_dest r2 = r_dest r /\ filter mutating (r_dest_trace r2) = [] /\
   (forall p, ~ In (CGetFileContent p) (r_src_trace r2)) /\ r_prompts r2 = [] /\ stats_nothing (r_stats r2) = true.
 Proof. exact sync_twice. Qed.
+
+(* The closed statement for the executable model: nothing is assumed about the second run's listing - the
+   tree a run leaves behind is well-formed (Proofs/WfProofs.v), so its sorted listing is a valid listing. *)
+Theorem C04_idempotent_executable : forall cfg S D a ans bits ex ft ans2 bits2 ft2,
+  unique_keys S -> wf_fs S -> unique_keys D -> wf_fs D -> src_times_set S -> links_utf8 S ->
+  let r := run_top cfg S D a ans bits ex ft in
+  r_ok r = true -> r_skipped r = [] -> r_root_skipped r = false -> cf_dry cfg = false -> cf_fl cfg = Unix ->
+  b_same (cf_b cfg) = BSkip ->
+  let r2 := run_top cfg S (d_fs (r_dest r)) (d_anc (r_dest r)) ans2 bits2 ex ft2 in
+  r_ok r2 = true /\ d_fs (r_dest r2) = d_fs (r_dest r) /\ filter mutating (r_dest_trace r2) = [] /\
+  (forall p, ~ In (CGetFileContent p) (r_src_trace r2)) /\ r_prompts r2 = [] /\ stats_nothing (r_stats r2) = true.
+Proof. exact run_top_twice. Qed.
 
 (* The two halves, usable on their own: a mirrored destination plans nothing ... *)
 Theorem C04_mirror_plans_nothing : forall now_z incl normalize diff fl S D D' ls ld',
@@ -52,5 +65,6 @@ Proof.
 Qed.
 
 Print Assumptions C04_idempotent.
+Print Assumptions C04_idempotent_executable.
 Print Assumptions C04_mirror_plans_nothing.
 Print Assumptions C04_link_text_reads_back.
